@@ -537,11 +537,15 @@ theorem ownM_write {loc : Loc} (b : Bytes) : OwnM loc (writeM b) := by
 theorem ownM_trimLeft {loc : Loc} : OwnM loc trimLeftM := fun _ => .call _ _ (fun _ => rfl) (.ret _)
 theorem ownM_trimRight {loc : Loc} : OwnM loc trimRightM := fun _ => .ret _
 
+theorem ownM_writeVerbatim {loc : Loc} (b : Bytes) : OwnM loc (writeVerbatimM b) := by
+  unfold writeVerbatimM
+  exact ownM_bind (ownM_write []) (fun _ => ownM_bind (ownM_write b) (fun _ => ownM_flush))
+
 theorem ownM_writeAll {loc : Loc} : ∀ cs, OwnM loc (writeAllM cs)
   | [] => ownM_pure ()
   | c :: cs => by
     unfold writeAllM
-    exact ownM_bind (ownM_write c) (fun _ => ownM_writeAll cs)
+    exact ownM_bind (ownM_writeVerbatim c) (fun _ => ownM_writeAll cs)
 
 theorem ownM_tablerowBefore {loc : Loc} (cols i : Nat) : OwnM loc (tablerowBefore cols i) := by
   unfold tablerowBefore
